@@ -336,6 +336,47 @@ theorem iter_source_truncated (file seq : Bytes) (idx : Idx) (cap start stop n f
     (Nat.le_of_lt h1) hfuel hcalls, Except.ok.inj hm]
   simp [itemsOf, toIo]
 
+open RbV.Thm.GenSrcIdxFa in
+/-- `fetch_by_rid` / `fetch_all_by_rid` (and `idx_by_rid` below them): translated code = mirror model — an unknown record
+number is an error that leaves the fetch state alone, a known one stores the `.fai` entry and the interval -/
+theorem fetch_by_rid_source_eq_model (index : List (Bytes × Idx)) (fi : Option Gen.SrcIdxFa.IndexRecord) (a b : Option Nat)
+    (rid start stop : Nat) :
+    Gen.SrcIdxFa.fetchByRid (toRecs index) fi a b rid start stop =
+      .ok (match fetchByRid index rid start stop with
+        | .ok r => (.ok (), fetchState r)
+        | .error e => (.error (toIo e), fi, a, b)) ∧
+    Gen.SrcIdxFa.fetchAllByRid (toRecs index) fi a b rid =
+      .ok (match fetchAllByRid index rid with
+        | .ok r => (.ok (), fetchState r)
+        | .error e => (.error (toIo e), fi, a, b)) :=
+  ⟨fetchByRid_eq_model index fi a b rid start stop, fetchAllByRid_eq_model index fi a b rid⟩
+
+open RbV.Thm.GenSrcIdxFa in
+/-- `read`: `read_into_buffer` on what was fetched; the "No sequence fetched" error before any fetch -/
+theorem read_source_dispatch {ρ : Type} (fb : ρ → Except Rs.IoErr (List Nat) × ρ) (co : ρ → Nat → ρ)
+    (sk : ρ → Nat → Except Rs.IoErr Nat × ρ) (s : ρ) (r : Gen.SrcIdxFa.IndexRecord) (start stop : Nat) (seq : List Nat)
+    (fuel : Nat) :
+    Gen.SrcIdxFa.read fb co sk s (some r) (some start) (some stop) seq fuel =
+      Gen.SrcIdxFa.readIntoBuffer fb co sk s r start stop seq fuel ∧
+    Gen.SrcIdxFa.read fb co sk s none none none seq fuel = .ok (.error (toIo .nofetch), s, seq) :=
+  ⟨read_eq fb co sk s r start stop seq fuel, RbV.Thm.GenSrcIdxFa.read_nofetch fb co sk s seq fuel⟩
+
+open RbV.Thm.GenSrcIdxFa in
+/-- **Translated `fetch_by_rid` followed by translated `read` returns exactly `seq[start..stop]`** of record `rid`, for
+every well-formed file, every chunk schedule, whatever was fetched or read before. -/
+theorem fetch_read_source_correct (index : List (Bytes × Idx)) (file seq : Bytes) (rid start stop : Nat)
+    (sched : Nat → Nat) (s0 : St) (seq0 : Bytes) (fuel : Nat) (fi0 : Option Gen.SrcIdxFa.IndexRecord) (a0 b0 : Option Nat)
+    (hr : rid < index.length) (wf : WellFormed file index[rid].2 seq) (h1 : start ≤ stop) (h2 : stop ≤ index[rid].2.len)
+    (hs : ∀ k, 0 < sched k) (h64 : index[rid].2.lB < 2 ^ 64) (hfit : pos index[rid].2 start < 2 ^ 64)
+    (hfuel : file.length < fuel) :
+    ∃ fi a b s', Gen.SrcIdxFa.fetchByRid (toRecs index) fi0 a0 b0 rid start stop = .ok (.ok (), fi, a, b) ∧
+      Gen.SrcIdxFa.read (fillBufOp sched) consumeOp (seekOp file) s0 fi a b seq0 fuel =
+        .ok (.ok (), s', (seq.drop start).take (stop - start)) := by
+  obtain ⟨s', h⟩ := read_source_correct file seq index[rid].2 start stop sched s0 seq0 fuel wf h1 h2 hs h64 hfit hfuel
+  refine ⟨some (toRec index[rid].2), some start, some stop, s', ?_, ?_⟩
+  · rw [fetchByRid_eq_model, (fetch_known_rid index rid start stop hr).1]; rfl
+  · rw [read_eq]; exact h
+
 /-! ## Non-vacuity: a concrete two-line record, LF and CRLF -/
 
 private def exFile : Bytes := [62, 97, 10, 65, 67, 71, 10, 84, 10]        -- ">a\nACG\nT\n"
@@ -386,5 +427,12 @@ example : drainIt (fun k => k + 1) 2 exIdx 20 10 ((seekTo exFile exIdx 0).1, 4 -
     .ok [.ok 65, .ok 67, .ok 71, .ok 84] :=
   iter_source_correct exFile exSeq exIdx 2 0 4 20 10 (fun k => k + 1) exWf (by decide) (by decide) (fun _ => by omega)
     (by decide) (by decide) (by decide) (by decide) (by decide)
+
+open RbV.Thm.GenSrcIdxFa in
+example : ∃ fi a b s', Gen.SrcIdxFa.fetchByRid (toRecs [([97], exIdx)]) none none none 0 1 4 = .ok (.ok (), fi, a, b) ∧
+    Gen.SrcIdxFa.read (fillBufOp (fun _ => 3)) consumeOp (seekOp exFile) ⟨[], 0, 0⟩ fi a b [] 10 =
+      .ok (.ok (), s', [67, 71, 84]) :=
+  fetch_read_source_correct [([97], exIdx)] exFile exSeq 0 1 4 (fun _ => 3) _ _ 10 none none none (by decide) exWf
+    (by decide) (by decide) (fun _ => by decide) (by decide) (by decide) (by decide)
 
 end RbV.Thm.C12
